@@ -273,6 +273,11 @@ class MessageHeader:
                              (self.payload_size_bytes, MessageHeader._MAX_EXPECTED_SIZE_BYTES))
 
         message_size_bytes = MessageHeader._SIZE + self.payload_size_bytes
+        # The CRC covers the complete message. If the buffer does not hold all of it, slicing would silently truncate
+        # and we would validate the CRC of a partial message.
+        if len(buffer) - offset < message_size_bytes:
+            raise ValueError('Not enough data to validate CRC. [%d bytes available, message size %d bytes]' %
+                             (len(buffer) - offset, message_size_bytes))
         crc = crc32(buffer[(offset + 8):(offset + message_size_bytes)])
         if crc != self.crc:
             raise ValueError('CRC mismatch. [type=%s, payload_size=%d B, expected=0x%08x, computed=0x%08x]' %
